@@ -42,6 +42,7 @@ pub struct Sh {
     pub y0: f64,
     pub budget: usize,   // ode-call budget: the (budget+1)-th call cuts the path
     pub finite_rhs: bool, // assume the RHS returns finite values
+    pub nan_only: bool,   // (with finite_rhs == false) the RHS returns NaN or a moderate finite value: no overflow in the step's own arithmetic
     pub adversary: bool,  // callback returns nondeterministic flags
     pub ode_calls: Cell<usize>,
     pub jac_calls: Cell<usize>,
@@ -77,6 +78,7 @@ impl Sh {
             y0: 0.5,
             budget,
             finite_rhs: true,
+            nan_only: false,
             adversary: false,
             ode_calls: Cell::new(0),
             jac_calls: Cell::new(0),
@@ -166,6 +168,9 @@ impl<'a> IVP for Nd<'a> {
             let v: f64 = kani::any();
             if s.finite_rhs {
                 kani::assume(v.is_finite() && v.abs() <= 1e6);
+            } else if s.nan_only {
+                // only the states handed to callbacks are judged (a rejected NaN trial is legitimate)
+                kani::assume(v.is_nan() || (v.is_finite() && v.abs() <= 1e6));
             } else if !v.is_finite() {
                 s.nonfinite_seen.set(true);
             }
